@@ -100,6 +100,16 @@ def same(a, b):
     return a == b
 
 
+def same_accounts(expected, got):
+    """account lists are compared as what they mean - which accounts - not as sequences: their order is not the
+    property's subject, and an account that occurs k times may be kept k times or fewer (never more often)"""
+    if null(expected) and null(got):
+        return True
+    if not isinstance(expected, list) or not isinstance(got, list):
+        return expected == got
+    return set(expected) == set(got) and all(got.count(x) <= expected.count(x) for x in set(got))
+
+
 def cfg_text(v):
     if isinstance(v, bool):
         return "true" if v else "false"
@@ -465,7 +475,7 @@ class OfxgetWorld:
                 got = run.effective[opt]
                 want = expect[opt]
                 self.source_stats[src[opt]] = self.source_stats.get(src[opt], 0) + 1
-                if not same(got, want):
+                if not (same_accounts(want, got) if opt in LISTS else same(got, want)):
                     others = sorted({s for s in ("cli", "user", "fidb") if opt in {"cli": run.cli, "user": self.user_model, "fidb": self.fidb}[s]})
                     self.violate("C18", "L1-precedence", opt if opt not in LISTS else "accounts",
                                  f"run{run.n}: effective {opt}={got!r}, but the highest-ranking source that sets it is "
@@ -517,7 +527,7 @@ class OfxgetWorld:
                     continue
                 if opt == "clientuid" and null(E[opt]):
                     continue
-                if not same(E[opt], obs[opt]):
+                if not (same_accounts(E[opt], obs[opt]) if opt in LISTS else same(E[opt], obs[opt])):
                     why = "other"
                     if same(E[opt], self.fidb.get(opt, DEFAULTS[opt])):
                         why = "default-after-nondefault"
@@ -784,11 +794,11 @@ class OfxgetWorld:
                         a["kind"] == kind and a["acctid"] == acct and a["status"] == "ACTIVE" for a in self.acct_spec):
                     self.violate("C19", "M3-inactive", "requested",
                                  f"run{run.n}: --all requested {g[0]} for account {acct}, which the server lists as not ACTIVE")
-        same = got == want
-        if run.all and not same:
-            # an account the server lists as ACTIVE more than once may be requested once or once per listing
-            same = set(map(repr, got)) == set(map(repr, want)) and all(got.count(g) <= want.count(g) for g in got)
-        if not same:
+        # an account that is configured (or listed as ACTIVE by the server) more than once may be requested once or
+        # once per occurrence - never more often, and nothing else may be requested
+        same_req = got == want or (set(map(repr, got)) == set(map(repr, want))
+                                   and all(got.count(g) <= want.count(g) for g in got))
+        if not same_req:
             missing = [w for w in want if w not in got]
             extra = [g for g in got if g not in want]
             sub = "mismatch"
